@@ -17,7 +17,7 @@ From Coq Require Import ZArith List Bool.
 From Tickit Require Import Csi VT XtermDefs XtermSpec XtermProofs.
 From Tickit Require Import RectDefs WinRectSet WinDefs WinSpec WinHist
   WinExposeProofs WinLogDisjoint WinFlushProofs WinScreenInv WinPreserve WinTermResize WinHistory WinC01Extra
-  WinRectSetProofs WinScrollDesc WinScrollRegion WinScrollFold WinScrollSpec WinScrollOps WinScrollInv WinHistoryFull WinReDefs WinReProofs WinReFlags WinReEstablish WinReExample WinReForest WinScrollXterm WinScrollXtermHist WinReFlush WinReFlushProofs WinReFlushSim WinFuelMono WinFuelTotal WinFuelScroll WinFuelTotalScroll WinFuelTotalExample.
+  WinRectSetProofs WinScrollDesc WinScrollRegion WinScrollFold WinScrollSpec WinScrollOps WinScrollInv WinHistoryFull WinReDefs WinReProofs WinReFlags WinReEstablish WinReExample WinReForest WinScrollXterm WinScrollXtermHist WinReFlush WinReFlushProofs WinReFlushSim WinFuelMono WinFuelTotal WinFuelScroll WinFuelTotalScroll WinFuelTotalExample WinFuelBound.
 From Tickit Require RBDefs RBSpec RBFlushDefs RBTermSim.
 From Tickit Require Import WinRBView WinEndToEnd WinEndToEndFinal.
 From Tickit Require WinInput WinInputProofs.
@@ -397,6 +397,14 @@ Theorem C01_history_total_example :
     all_shown (run no_defects ex_progs (ex_ops ++ [OFlush]) (m_init_f f 4 6 ex_orc)).
 Proof. exact ex_flushed. Qed.
 Print Assumptions C01_history_total_example.
+
+(* an EXPLICIT bound where it is easy: on an empty damage set one unit of fuel suffices for an
+   expose, hence the initial state is fault-free and invariant for every fuel >= 1 (the general
+   existence theorems above give no bound; WinFuelBound.v) *)
+Theorem C01_init_fuel_bound : forall nl nc orc, 0 < nl -> 0 < nc -> forall f, (1 <= f)%nat ->
+  r_fault (m_root (m_init_f f nl nc orc)) = false /\ MInv3 (m_init_f f nl nc orc).
+Proof. exact init_bound_inv3. Qed.
+Print Assumptions C01_init_fuel_bound.
 
 (* ---- expose handlers that re-enter the window layer during the flush ----
    (tickit_window_expose / show / hide / raise / lower / raise_to_front / lower_to_back called
